@@ -1,6 +1,7 @@
 package main
 
 import (
+	"encoding/json"
 	"flag"
 	"fmt"
 	"os"
@@ -85,6 +86,10 @@ func mustLoad() *Program {
 		os.Exit(3)
 	}
 	P.loadSecs = time.Since(t0).Seconds()
+	P.localSigs = map[string]map[string]localSig{}
+	if data, err := os.ReadFile(filepath.Join(verifDir, "props", "_locals.json")); err == nil {
+		_ = json.Unmarshal(data, &P.localSigs)
+	}
 	P.lemmaRegion = map[string]string{}
 	for _, f := range loadFindings().Findings {
 		if strings.HasPrefix(f.Obligation, "lemma/") {
